@@ -33,6 +33,7 @@ type histSpec struct {
 	Status   bool   // the desired child carries a status key (a hook echoing what it observed)
 	Ann      bool   // the desired child carries an annotation of the hook's own
 	Lbl      bool   // the desired child carries an extra label
+	Echo     bool   // read-modify-return hook: the desired child carries every annotation of the child it observed (incl. metacontroller's own record)
 }
 
 func (s histSpec) key() string { return fmt.Sprintf("%+v", s) }
@@ -41,7 +42,7 @@ func histSpecOf(req kit.M) histSpec {
 	g := func(k string) string { return kit.Str(req, "parent", "spec", k) }
 	n, _ := kit.Get(req, "parent", "spec", "replicas").(int64)
 	b := func(k string) bool { v, _ := kit.Get(req, "parent", "spec", k).(bool); return v }
-	return histSpec{V: g("v"), Replicas: int(n), Extra: g("extra"), Ports: g("ports"), Status: b("status"), Ann: b("ann"), Lbl: b("lbl")}
+	return histSpec{V: g("v"), Replicas: int(n), Extra: g("extra"), Ports: g("ports"), Status: b("status"), Ann: b("ann"), Lbl: b("lbl"), Echo: b("echo")}
 }
 
 func (s histSpec) into(o kit.M) {
@@ -52,10 +53,11 @@ func (s histSpec) into(o kit.M) {
 	kit.Field(o, s.Status, "spec", "status")
 	kit.Field(o, s.Ann, "spec", "ann")
 	kit.Field(o, s.Lbl, "spec", "lbl")
+	kit.Field(o, s.Echo, "spec", "echo")
 }
 
 // histChildren is the hook program: a pure function of the parent spec it is shown.
-func histChildren(s histSpec, genSel bool) kit.L {
+func histChildren(s histSpec, genSel bool, observed kit.M) kit.L {
 	out := kit.L{}
 	for i := 0; i < s.Replicas; i++ {
 		o := kit.Obj(kit.Leaf, "", []string{"a", "b"}[i])
@@ -76,6 +78,13 @@ func histChildren(s histSpec, genSel bool) kit.L {
 		}
 		if s.Status {
 			o["status"] = kit.M{}
+		}
+		if s.Echo {
+			if ob, ok := observed[kit.Name(o)].(kit.M); ok {
+				for k, v := range kit.Map(ob, "metadata", "annotations") {
+					kit.Ann(o, k, fmt.Sprint(v))
+				}
+			}
 		}
 		if s.Ann {
 			kit.Ann(o, "ex.io/note", "n")
@@ -124,7 +133,7 @@ func histWorld(cfg histCfg, s histSpec) *cworld {
 	w.Sim.Seed(p)
 	w.Hooks.Handle("/cc/sync", world.JSON(func(req map[string]interface{}) interface{} {
 		sp := histSpecOf(req)
-		return kit.M{"status": kit.M{"v": sp.V}, "children": histChildren(sp, cfg.GenSel)}
+		return kit.M{"status": kit.M{"v": sp.V}, "children": histChildren(sp, cfg.GenSel, kit.Map(req, "children", "Leaf.v1"))}
 	}))
 	w.DeliverAll()
 	return w
@@ -289,6 +298,7 @@ func (x *histSys) Events() []string {
 		// own field-ownership rules, which the simulated server only approximates)
 		add("status", fmt.Sprint(x.spec.Status), "true", "false")
 	}
+	add("echo", fmt.Sprint(x.spec.Echo), "true", "false")
 	if x.full {
 		add("ann", fmt.Sprint(x.spec.Ann), "true", "false")
 		add("lbl", fmt.Sprint(x.spec.Lbl), "true", "false")
@@ -328,6 +338,8 @@ func (x *histSys) Apply(ev string) {
 			x.spec.Ann = kv[1] == "true"
 		case "lbl":
 			x.spec.Lbl = kv[1] == "true"
+		case "echo":
+			x.spec.Echo = kv[1] == "true"
 		}
 		sp := x.spec
 		x.w.Sim.Edit(kit.Thing, "n1", "p", func(o map[string]interface{}) { sp.into(o) })
